@@ -378,12 +378,12 @@ func run(S *astx.Structs) {
 // turn (and all at once) to learn that the walk is guarded.
 
 type learned struct {
-	Kind    string          `json:"kind"`
-	Flags   map[string]bool `json:"flags"`
-	Recs    map[string]string `json:"recs"`   // record field -> record kind ("" = nil, "foreign")
-	Visited []string        `json:"visited"` // slot paths in visit order (direct children only)
-	Panic   string          `json:"panic,omitempty"`
-	Variant string          `json:"variant"` // full | nil:<field> | noopt
+	Kind    string            `json:"kind"`
+	Flags   map[string]bool   `json:"flags"`
+	Recs    map[string]string `json:"recs"`    // record field -> record kind ("" = nil, "foreign")
+	Visited []string          `json:"visited"` // slot paths in visit order (direct children only)
+	Panic   string            `json:"panic,omitempty"`
+	Variant string            `json:"variant"` // full | nil:<field> | noopt
 }
 
 func directVisits(root ast.Node) (paths []string, panicked string) {
